@@ -51,6 +51,15 @@ def get_locale_category(category: int) -> str:
     return _locale
 
 
+def get_process_collate_locale() -> str:
+    """
+    The LC_COLLATE locale of the process, not the one that a collation block
+    of another thread has temporarily set.
+    """
+    with _locale_collate_lock:
+        return locale.setlocale(locale.LC_COLLATE, None)
+
+
 def unicode_codepoint_strcoll(s1: str, s2: str) -> int:
     return 0 if s1 == s2 else -1 if s1 < s2 else 1
 
